@@ -333,7 +333,7 @@ def run_corr(ctx, prefix, scale, extra_oracle=None, F=FLAVOR):
     NAME, key = F["name"], F["key"]
     cases = gen_dyadic(ctx) + gen_gamma_changes(ctx, max(20, int(scale * ctx.n(150, 1200)))) + gen_random(ctx, max(40, int(scale * ctx.n(300, 3000))))
     cases = [F["conv"](ctx, c) for c in cases]
-    outs = run_driver(ctx, "solve", "".join(c.rq.to_input() for c in cases), timeout=1500)
+    outs = run_driver(ctx, "solve", [c.rq.to_input() for c in cases], timeout=1500)
     if outs is None or len(outs) != len(cases):
         ctx.broke("correspondence", "drv_solve", "driver produced %s results for %d runs rc=%s %s" % (None if outs is None else len(outs), len(cases), getattr(ctx, "driver_rc", "?"), getattr(ctx, "driver_err", "")))
         return
